@@ -30,12 +30,17 @@ type BuildSpec struct {
 	ShardMax     int
 	Docs         []Doc
 	Changed      []string // MarkFileAsChangedOrRemoved (delta builds)
+	BranchName   string   // "" = HEAD
 }
 
 func Version(gen int) string { return fmt.Sprintf("g%d", gen) }
 
 // RunBuild runs NewBuilder / Add / Finish of the real code, single-threaded (Parallelism 1), without ctags.
 func RunBuild(sp BuildSpec) error {
+	branch := sp.BranchName
+	if branch == "" {
+		branch = "HEAD"
+	}
 	opts := index.Options{
 		IndexDir:     sp.Dir,
 		Parallelism:  1,
@@ -46,7 +51,7 @@ func RunBuild(sp BuildSpec) error {
 		RepositoryDescription: zoekt.Repository{
 			Name:     sp.RepoName,
 			ID:       sp.RepoID,
-			Branches: []zoekt.RepositoryBranch{{Name: "HEAD", Version: Version(sp.Gen)}},
+			Branches: []zoekt.RepositoryBranch{{Name: branch, Version: Version(sp.Gen)}},
 		},
 	}
 	opts.SetDefaults()
@@ -58,7 +63,7 @@ func RunBuild(sp BuildSpec) error {
 		b.MarkFileAsChangedOrRemoved(c)
 	}
 	for _, d := range sp.Docs {
-		if err := b.Add(index.Document{Name: d.Name, Content: []byte(d.Content), Branches: []string{"HEAD"}}); err != nil {
+		if err := b.Add(index.Document{Name: d.Name, Content: []byte(d.Content), Branches: []string{branch}}); err != nil {
 			b.Finish()
 			return fmt.Errorf("Add: %w", err)
 		}
